@@ -110,6 +110,14 @@ def cfg_checks(failures, name, regex, R, alphabet, words):
             if c != R.accepts(wd):
                 failures.append(fail(name + ".to_cfg.contains", "wrong:%s" % c, wd))
                 break
+        # the optional starting symbol, asked on the same object after the default one
+        g2 = regex.to_cfg(starting_symbol="T0")
+        if g2.start_symbol is None or g2.start_symbol.value != "T0":
+            failures.append(fail(name + ".to_cfg", "starting_symbol_ignored", repr(g2.start_symbol)))
+        got2 = ref_cfg.lib_to_ref(g2).language_upto(3)
+        if got2 != exp:
+            failures.append(fail(name + ".to_cfg", "language_with_other_start_symbol",
+                                 {"missing": sorted(exp - got2)[:3], "extra": sorted(got2 - exp)[:3]}))
 
 
 def run_case(case):
